@@ -415,7 +415,9 @@ def _mk(kind, source="bin", apbase=None):
         if kind == "NP1":
             depth, faults_, cap = 2, 1, None
         if apbase:
-            depth, faults_ = (2, 0) if tier == "quick" else (2, 1)
+            depth, faults_ = ((2, 1) if kind == "NP2.1" else (1, 1)) if tier == "quick" else (2, 1)
+            if tier == "quick" and apbase != ODD_NAMES[0]:
+                depth, faults_ = 2, 0
         return histories.bfs(model, "histories-%s%s%s" % (kind, "" if source == "bin" else "-" + source, "@" + apbase if apbase else ""), tier, jobs, depth, faults_, cap_states=cap)
     return run
 
